@@ -14,7 +14,7 @@ def sh(cmd, **kw):
     return subprocess.run(cmd, shell=True, text=True, capture_output=True, **kw)
 
 def tests(wt):
-    r = sh(f'cd {wt} && CARGO_TARGET_DIR={TGT} cargo test --offline 2>&1 | grep -E "^test result|FAILED|failed|error(\\[|:)" | head -8')
+    r = sh(f'cd {wt} && CARGO_TARGET_DIR={TGT} cargo test --offline 2>&1 | grep -E "^test result" | head -3')
     out = r.stdout
     passed = failed = 0
     for l in out.splitlines():
